@@ -469,3 +469,21 @@ def oab_odd_uncompressed_cases(rng, count=10):
         f = oab.full_file([{"data": data, "payload": b"".join(frames), "lzx": True}])
         yield {"kind": "oab", "files": {"full.oab": f}, "members": [{"name": b"out", "data": data}],
                "meta": {"order": ["full.oab"], "blocks": [{"lzx_blocks": ["uncompressed"] * len(blocks)}], "directed": f"odd-uncompressed-{a}x1+{b}x2+{big}"}}
+
+def chm_rtable_in_section1(rng):
+    """a CHM whose directory claims that the ResetTable system file lies in the compressed section (one byte of the
+    listing changed): reading it fails, SpanInfo takes its place.  returns (case, index of a compressed member) or None"""
+    name = b"::DataSpace/Storage/MSCompressed/Transform/{7FC28940-9D31-11D0-9B27-00A0C91E9C7C}/InstanceData/ResetTable"
+    for _ in range(200):
+        try:
+            case = vgen_case(rng, "chm", "small", rtable="normal")
+        except Exception:
+            continue
+        mem = case["members"]; js = [j for j, m in enumerate(mem) if m["section"] == 1 and m["data"]]
+        if not js: continue
+        nm = case["meta"]["order"][0]; b = bytearray(case["files"][nm])
+        i = b.find(name)
+        if i < 0 or b[i + len(name)] != 0: continue
+        b[i + len(name)] = 1
+        return dict(case, files={nm: bytes(b)}), js
+    return None
